@@ -425,6 +425,12 @@ class AttributeCollection(MutableMapping[int, Attribute]):
             self.add(TreatAsWithdraw(aid))
             return self
 
+        if len(data) < offset + length:
+            # RFC 7606 4: the declared length runs past the end of the attribute block, the attribute
+            # must not be read as a shorter one (slicing would silently truncate it)
+            self.add(TreatAsWithdraw(aid))
+            return self
+
         data = data[offset:]
         left = data[length:]
         attribute = data[:length]
